@@ -168,11 +168,11 @@ func Modf(f float64) (float64, float64) {
 	if f == posInf || f == negInf {
 		return f, nan
 	}
-	if 1/f == negInf {
+	if f == 0 {
 		return f, f
 	}
 	frac := Mod(f, 1)
-	return f - frac, frac
+	return Copysign(f-frac, f), frac
 }
 
 func NaN() float64 {
@@ -219,10 +219,7 @@ func Tanh(x float64) float64 {
 }
 
 func Trunc(x float64) float64 {
-	if x == posInf || x == negInf || x != x || 1/x == negInf {
-		return x
-	}
-	return Copysign(float64(int(x)), x)
+	return math.Call("trunc", x).Float()
 }
 
 var buf struct {
